@@ -520,6 +520,10 @@ func toSMT(e Expr, env *Env) Term {
 		return strLiteral(e.Val)
 	case *EIdent:
 		switch e.Name {
+		case "pi":
+			r := new(big.Rat)
+			r.SetFloat64(3.141592653589793) // math.Pi as a float64
+			return RatLit(r)
 		case "true":
 			return BoolLit(true)
 		case "false":
@@ -759,6 +763,10 @@ func callSMT(e *ECall, env *Env) Term {
 	case "i2f":
 		need(1)
 		return T(SReal, "(i2f %s)", ints())
+	case "tan", "cos", "sin", "atan", "sinh", "asinh", "log", "sqrt", "exp":
+		need(1)
+		nm := map[string]string{"tan": "m.Tan", "cos": "m.Cos", "sin": "m.Sin", "atan": "m.Atan", "sinh": "m.Sinh", "asinh": "m.Asinh", "log": "m.Log", "sqrt": "m.Sqrt", "exp": "m.Exp"}[e.Fn]
+		return T(SReal, "(%s %s)", nm, toReal(a[0]).S)
 	case "isint":
 		need(1)
 		return T(SBool, "(is_int %s)", toReal(a[0]).S)
